@@ -32,6 +32,8 @@ def config_text(c: dict, port: int, routes=None) -> str:
         extra += '    passive false;\n'
     if c.get('adjout', True):
         extra += '    adj-rib-out true;\n'
+    else:
+        extra += '    adj-rib-out false;\n'
     if c.get('adjin'):
         extra += '    adj-rib-in true;\n'
     if c.get('manual_eor'):
